@@ -310,7 +310,180 @@ def r08_8(ctx: Ctx) -> None:
     ctx.floor("R08.8", n_sib, 1, "non-parsing sibling constructors in archiveinfo")
 
 
+def r08_10(ctx: Ctx) -> None:
+    """Header.initialize (called by the first write of a session, also in append mode) creates a fresh section object only where the
+    parsed header has none: `self.files_info = FilesInfo()` / `self.main_streams = StreamsInfo()` stand under the fact that the field
+    is None.  An archive that holds only directories / empty files has a member table but no streams: replacing the table forgets the
+    old members while the worker indices still count them (IndexError after the old header has been overwritten)."""
+    f = ctx.prog.func("archiveinfo", "Header.initialize")
+    n = 0
+    for a in walk(f.node):
+        if not (isinstance(a, ast.Assign) and isinstance(a.value, ast.Call) and isinstance(a.value.func, ast.Name) and a.value.func.id in ("FilesInfo", "StreamsInfo")):
+            continue
+        for t in a.targets:
+            if not (isinstance(t, ast.Attribute) and isinstance(t.value, ast.Name) and t.value.id == "self"):
+                continue
+            n += 1
+            facts = q.facts_at(f, a)
+            absent = any((nt := q.is_none_test(cd)) is not None and norm(nt[0]) == norm(t) and nt[1] == pol for cd, pol in facts)
+            ctx.check(absent, "R08.10", f, a, f"{norm(t)} is created only when the parsed header has none",
+                      f"`{norm(a)}` runs without the fact `{norm(t)} is None`: in append mode the member table / stream description read from the existing archive is "
+                      "replaced by an empty one (base with only directories or empty files: IndexError in write()/close() after the old header was overwritten, all old members lost)",
+                      construct=f"fresh {norm(t)}")
+    ctx.floor("R08.10", n, 2, "fresh section objects in Header.initialize")
+
+
+def r08_11(ctx: Ctx, rule: str = "R08.11") -> None:
+    """reader/writer convention of PackInfo.crcs: `_read` appends a CRC only under a true 'defined' flag (a COMPACT list, one entry per
+    defined stream; SevenZipFile.test() reads it with a compact cursor too).  The writer must then address it with a cursor that advances
+    only under the flag - indexing it with the stream index is invisible while every digest is defined (all py7zr-written archives) and
+    fails (AssertionError / IndexError in close(), after the old header was overwritten) for a base with a partially defined vector."""
+    cls = ctx.prog.cls("PackInfo", "archiveinfo")
+    rd, wr = cls.methods["_read"], cls.methods["write"]
+    apps = [c for c in q.calls(rd) if attr_tail(c) == "append" and norm(c.func.value) == "self.crcs"]
+    ctx.floor(rule, len(apps), 1, "self.crcs.append in PackInfo._read")
+
+    def flag_fact(f: Func, node: ast.AST) -> bool:
+        """is node executed only where an element of digestdefined is known true?"""
+        flagvars = {lp.target.id for lp in walk(f.node) if isinstance(lp, ast.For) and isinstance(lp.target, ast.Name) and "digestdefined" in norm(lp.iter)}
+        for cd, pol in q.facts_at(f, node):
+            if pol and isinstance(cd, ast.Subscript) and "digestdefined" in norm(cd.value):
+                return True
+            if pol and isinstance(cd, ast.Name) and cd.id in flagvars:
+                return True
+        return False
+
+    compact = all(flag_fact(rd, a) for a in apps)
+    if not compact:
+        ctx.note(f"{rule}: PackInfo._read stores one CRC per stream (not compact): the writer may index by stream")
+        return
+    subs = [x for x in walk(wr.node) if isinstance(x, ast.Subscript) and norm(x.value) == "self.crcs" and isinstance(x.ctx, ast.Load)]
+    ctx.floor(rule, len(subs), 1, "self.crcs[...] in PackInfo.write")
+    for sub in subs:
+        ok = False
+        if isinstance(sub.slice, ast.Name):
+            cur = sub.slice.id
+            incs = [n for n in walk(wr.node) if isinstance(n, ast.AugAssign) and isinstance(n.target, ast.Name) and n.target.id == cur and isinstance(n.op, ast.Add)]
+            loopvar = any(isinstance(lp, ast.For) and any(isinstance(t, ast.Name) and t.id == cur for t in ast.walk(lp.target)) for lp in walk(wr.node))
+            ok = bool(incs) and not loopvar and all(flag_fact(wr, i) for i in incs) and flag_fact(wr, sub)
+        ctx.check(ok, rule, wr, sub, "PackInfo.write addresses the compact CRC list with a compact cursor",
+                  f"PackInfo._read keeps one CRC per DEFINED stream, but PackInfo.write reads `{norm(sub)}` with the stream index: for a base archive whose packed-stream "
+                  "CRC vector is only partially defined an append fails in close() (AssertionError, IndexError under -O) after the old header has been overwritten",
+                  construct=f"compact index {norm(sub)}")
+
+
+# member properties the FilesInfo reader stores but the writer is not required to emit (reason each)
+FILESINFO_NOT_REWRITTEN_OK = {
+    "START_POS": "start positions concern volume sets; py7zr neither uses nor produces them",
+    "DUMMY": "padding: emitted as needed for alignment, not data",
+}
+
+
+def r08_12(ctx: Ctx, rule: str = "R08.12") -> None:
+    """what the member table reader keeps, the member table writer puts back (an append rewrites the whole header): every property id
+    that FilesInfo._read dispatches on and stores is emitted by FilesInfo.write on a reachable path, and kEmptyFile - which only has a
+    meaning next to kEmptyStream - is reachable on a path that has emitted kEmptyStream.  A property the writer never emits is lost for
+    every OLD member at the first append (empty files turn into directories for conforming readers, creation/access times vanish)."""
+    fi = ctx.prog.cls("FilesInfo", "archiveinfo")
+    rd, wr = fi.methods["_read"], fi.methods["write"]
+    read_ids = []
+    for n in walk(rd.node):
+        if isinstance(n, ast.Compare) and len(n.ops) == 1 and isinstance(n.ops[0], ast.Eq) and isinstance(n.comparators[0], ast.Attribute) \
+                and isinstance(n.comparators[0].value, ast.Name) and n.comparators[0].value.id == "PROPERTY":
+            read_ids.append(n.comparators[0].attr)
+    read_ids = [r for r in dict.fromkeys(read_ids) if r != "END"]
+    ctx.floor(rule, len(read_ids), 6, "property ids dispatched by FilesInfo._read")
+    emitted: Dict[str, List] = {}
+    cfg = cfg_of(wr.node)
+    for g, n, via in q.deep_nodes(ctx, wr, depth=2):
+        if isinstance(n, ast.Call) and attr_tail(n) in ("write_byte", "_write_times", "_write_prop_bool_vector") :
+            for a in n.args:
+                if isinstance(a, ast.Attribute) and isinstance(a.value, ast.Name) and a.value.id == "PROPERTY":
+                    emitted.setdefault(a.attr, []).append(via if via is not None else n)
+    for pid in read_ids:
+        if pid in FILESINFO_NOT_REWRITTEN_OK:
+            ctx.ok(rule, f"{pid}: not re-emitted by design ({FILESINFO_NOT_REWRITTEN_OK[pid]})")
+            continue
+        sites = [x for x in emitted.get(pid, []) if cfg.reaches(cfg.entry, q.node_for(wr, x))]
+        ctx.check(bool(sites), rule, wr, wr.node, f"FilesInfo.write emits {pid}",
+                  f"FilesInfo._read keeps the member property {pid} but FilesInfo.write never emits it: the first append (which rewrites the whole header) drops it for every "
+                  "member of the existing archive", construct=f"member property {pid} not rewritten")
+    if "EMPTY_FILE" in read_ids and emitted.get("EMPTY_FILE") and emitted.get("EMPTY_STREAM"):
+        ok = any(cfg.reaches(q.node_for(wr, a), q.node_for(wr, b)) for a in emitted["EMPTY_STREAM"] for b in emitted["EMPTY_FILE"])
+        ctx.check(ok, rule, wr, emitted["EMPTY_FILE"][0], "kEmptyFile can follow kEmptyStream",
+                  "FilesInfo.write emits kEmptyFile only on paths that have NOT emitted kEmptyStream (`if ...: EmptyStream elif ...: EmptyFile`): the vector has no meaning "
+                  "without empty streams, so it is never written and every zero-length file of the base archive becomes a directory for conforming readers after an append",
+                  construct="EMPTY_FILE after EMPTY_STREAM")
+
+
+def r08_13(ctx: Ctx, rule: str = "R08.13") -> None:
+    """mode 'a' starts a NEW archive (which truncates / overwrites from offset 0) only for a file that is not a 7z archive at all: the
+    `_prepare_write` call of the append arm stands under the false outcome of the signature test, never inside an exception handler
+    around the parse of the existing archive.  `except Bad7zFile: _prepare_write()` replaces every archive the parser rejects (anti-items,
+    unsupported header records, damage, wrong header password) by a new one without telling the caller."""
+    init = shared.szf(ctx, "__init__")
+    n = 0
+    for c in q.calls(init):
+        if attr_tail(c) != "_prepare_write":
+            continue
+        facts = q.facts_at(init, c)
+        in_append = any(pol and isinstance(cd, ast.Compare) and isinstance(cd.ops[0], ast.Eq) and isinstance(cd.comparators[0], ast.Constant) and cd.comparators[0].value == "a"
+                        and norm(cd.left) == "mode" for cd, pol in facts)
+        in_handler = any(isinstance(h, ast.ExceptHandler) and any(x is c for x in ast.walk(h)) for h in walk(init.node))
+        if not in_append and not in_handler:
+            continue
+        if not in_append:
+            # a handler inside the append arm: the enclosing if supplies the mode fact for the try statement, not for the handler body
+            tr = next((t for t in walk(init.node) if isinstance(t, ast.Try) and any(any(x is c for x in ast.walk(h)) for h in t.handlers)), None)
+            in_append = tr is not None and any(pol and isinstance(cd, ast.Compare) and isinstance(cd.comparators[0], ast.Constant) and cd.comparators[0].value == "a"
+                                               for cd, pol in q.facts_at(init, tr))
+            if not in_append:
+                continue
+        n += 1
+        not_7z = any((not pol) and isinstance(cd, ast.Call) and attr_tail(cd) in ("_check_7zfile", "is_7zfile") for cd, pol in facts)
+        ctx.check(not_7z and not in_handler, rule, init, c, "append mode writes a new archive only over a file without the 7z signature",
+                  "in mode 'a' `_prepare_write` runs " + ("inside an exception handler around the parse of the existing archive" if in_handler else "without the signature test having failed") +
+                  ": an existing 7z archive that the parser rejects (anti-item, unsupported record, damage, wrong header password) is silently replaced by a new "
+                  "archive that holds only the appended members", construct="append fallback to write")
+    ctx.floor(rule, n, 1, "_prepare_write calls in the append arm of the constructor")
+
+
+def r08_14(ctx: Ctx, rule: str = "R08.14") -> None:
+    """folder-level CRCs survive every route into the substream digest table (the only place the main-stream writer takes digests from:
+    StreamsInfo.write does not re-emit folder CRCs).  Three routes build the table: no SubStreamsInfo at all (from_folders), a kCRC
+    record, and SubStreamsInfo WITHOUT a kCRC record (the all-undefined fallback).  Each must hand the CRC of a single-stream folder
+    down; a route that does not makes list() report crc32 None and the first append drop the CRC of every old member."""
+    cls = ctx.prog.cls("SubstreamsInfo", "archiveinfo")
+    rd = cls.methods["_read"]
+    from ..model import parent_map
+    pm = parent_map(rd.node)
+    falls = [n for n in walk(rd.node) if isinstance(n, ast.Assign) and any(norm(t) == "self.digestsdefined" for t in n.targets)
+             and isinstance(n.value, ast.BinOp) and isinstance(n.value.op, ast.Mult) and any(isinstance(x, ast.Constant) and x.value is False for x in ast.walk(n.value))]
+    ctx.floor(rule, len(falls), 1, "all-undefined fallback of SubstreamsInfo._read")
+    for a in falls:
+        blk = pm.get(a)
+        body = None
+        for fld in ("body", "orelse", "finalbody"):
+            lst = getattr(blk, fld, None)
+            if isinstance(lst, list) and any(x is a for x in lst):
+                body = lst[lst.index(a):]
+        ok = body is not None and any(isinstance(x, ast.Attribute) and x.attr == "crc" and isinstance(x.ctx, ast.Load) for st in body for x in ast.walk(st))
+        ctx.check(ok, rule, rd, a, "the no-kCRC fallback hands folder CRCs down to single-stream folders",
+                  "when SubStreamsInfo carries no kCRC record every substream digest is set undefined and the folder CRCs are not consulted: a base archive protected by "
+                  "folder CRCs lists crc32 None, and after an append (the writer takes digests only from this table) the CRC of every old member is gone",
+                  construct="digest fallback without folder crc")
+    ff = cls.methods.get("from_folders")
+    if ff is not None:
+        ok = any(isinstance(x, ast.Attribute) and x.attr == "crc" for x in walk(ff.node))
+        ctx.check(ok, rule, ff, ff.node, "from_folders hands folder CRCs down", "from_folders does not take the folder CRCs", construct="from_folders crc")
+
+
 def run(ctx: Ctx) -> None:
+    r08_14(ctx)
+    r08_13(ctx)
+    r08_12(ctx)
+    r08_11(ctx)
+    r08_10(ctx)
     from . import c06 as _c06
     _c06.r06_12(ctx, rule="R08.9")  # py7zr's own append of only directories writes a zero-stream folder: the archive must stay readable/appendable
     r08_8(ctx)
